@@ -612,6 +612,32 @@ def rule_R8(body: str, log, where):
     return body
 
 
+def rule_R3f(body: str, log, where):
+    """`for (a, b) in E { .. }`  ->  `for ab__ in E { let (a, b) = ab__; .. }`  (alpha-renaming: Verus wants a variable as loop pattern)"""
+    for n_ in range(8):
+        mask = mask_rust(body)
+        m = re.search(r"\bfor\s*(\((?:[^()]|\([^()]*\))*\))\s+in\b", mask)
+        if not m:
+            break
+        k, depth = m.end(), 0
+        while k < len(mask):
+            ch = mask[k]
+            if ch in "([":
+                depth += 1
+            elif ch in ")]":
+                depth -= 1
+            elif ch == "{" and depth == 0:
+                break
+            k += 1
+        if k >= len(mask):
+            break
+        pat = body[m.start(1):m.end(1)]
+        var = f"tup{n_}__"
+        body = body[:m.start(1)] + var + body[m.end(1):k + 1] + f" let {pat} = {var};" + body[k + 1:]
+        log.append({"rule": "R3", "where": where, "before": f"for {pat} in ..", "after": f"for {var} in .. {{ let {pat} = {var}; .."})
+    return body
+
+
 def apply_rewrite(body, rule, frm, to, allocc, log, where):
     """exact-text rewrite. A missing anchor is NOT fatal: the rule is skipped and logged (`missed`), the real text
     goes to Verus unrewritten and either verifies, fails (violation) or is rejected by the front end (undecided).
@@ -1313,6 +1339,8 @@ def generate(unit, template_path, canary=False, extra_fns=()):
                     raise AnchorLost(f"{where}: rewrite-re {rule} pattern not found: `{frm}`")
                 g.rewrites.append({"rule": rule, "where": where, "before": "/" + frm + "/", "after": to, "count": cnt})
                 body = new_body
+            if re.search(r"\bfor\s*\(", mask_rust(body)):
+                body = rule_R3f(body, g.rewrites, where)
             if spec.get("closures"):
                 # R3+R10: annotate the n-th closure (textual order, before other rewrites shift nothing: applied last-first)
                 cl = find_closures(mask_rust(body))
@@ -1339,6 +1367,18 @@ def generate(unit, template_path, canary=False, extra_fns=()):
                     g.rewrites.append({"rule": "R3+R10", "where": where, "before": body[a:be], "after": new})
                     body = body[:a] + new + body[be:]
             for pos, anchor, text in spec["inserts"]:
+                if pos == "loop-start":
+                    sel = int(anchor) if anchor.isdigit() else anchor.strip("/")
+                    ln = resolve_loop(sel, body, where)
+                    bm = mask_rust(body)
+                    spans = loop_spans(bm)
+                    if ln is None or ln >= len(spans):
+                        g.rewrites.append({"rule": "R10", "where": where, "before": f"loop-start {anchor}", "after": text[:80], "missed": True})
+                        continue
+                    _, b_open, b_close = spans[ln]
+                    body = body[:b_open + 1] + " " + text + " " + body[b_open + 1:]
+                    g.rewrites.append({"rule": "R10", "where": where, "before": f"loop-start {anchor}", "after": text[:80]})
+                    continue
                 if pos == "loop-end":
                     # anchor = loop selector (ordinal or /header regex/): the text goes to the END of that loop's body
                     sel = int(anchor) if anchor.isdigit() else anchor.strip("/")
